@@ -380,8 +380,11 @@ impl<W: Write> HashedWrite<W> {
 
 impl<W: Write> Write for HashedWrite<W> {
     fn write(&mut self, buf: &[u8]) -> std::io::Result<usize> {
-        self.hasher.update(buf);
-        self.writer.write(buf)
+        // Only hash the bytes the inner writer actually accepted; the caller
+        // (e.g. write_all) presents the remainder again.
+        let n = self.writer.write(buf)?;
+        self.hasher.update(&buf[..n]);
+        Ok(n)
     }
 
     fn flush(&mut self) -> std::io::Result<()> {
